@@ -230,8 +230,18 @@ def check_shape(case, stats):
     first_bad = next((i for i, n in enumerate(counts) if n != counts[0]), None)
     stats.case(text, first_bad is not None and len(counts) > 2, sample=case,
                labels=["ragged" if first_bad is not None else "rectangular", case["where"]])
-    for stop in (False, True):
-        r = gh.parse(text, stop=stop)
+    for stop in (False, True, "used"):
+        if stop == "used":
+            # a parser whose earlier parses were aborted while a table was open (first fault right behind table rows, in stop mode; the
+            # error limit reached inside a table): what it has seen of those tables plays no part in the next document
+            used = gh.Parser(gh.AstBuilder(gh.IdGenerator()))
+            gh.parse("Feature: f\n Scenario: s\n  Given x\n   | a | b | c |\n   | d | e | f |\n garbage\n", parser=used, stop=True)
+            gh.parse("Feature: f\n" + " bad\n" * 9 + " Scenario: s\n  Given x\n   | p |\n   | q |\n bad again\n more\n", parser=used, stop=False)
+            gh.parse("Feature: f\n Scenario Outline: s\n  Given x\n  Examples:\n   | h1 | h2 |\n   | v1 | v2 |\n garbage\n", parser=used, stop=True)
+            r = gh.parse(text, parser=used, stop=False)
+            stop = "collecting, parser used before on documents aborted inside a table"
+        else:
+            r = gh.parse(text, stop=stop)
         if first_bad is None:
             if r[0] != "ok":
                 raise Violation(case, "rectangular table rejected (stop=%s): %r" % (stop, r[1]))
@@ -313,7 +323,7 @@ def run(ctx):
     ctx.units("rows-exhaustive", unit_rows,
               [{"maxlen": maxlen, "doclen": doclen, "shard": i, "nshards": ns} for i in range(ns)], procs=ns)
     ctx.units("escape-pairs", unit_escape_pairs, [{}])
-    ctx.units("rows-long", unit_long_rows, [{"lengths": list(range(1, 40)) + [63, 64, 65, 100, 127, 128, 129, 255, 256, 257, 300] + ([] if q else [1000, 4096, 10000])}])
+    ctx.units("rows-long", unit_long_rows, [{"lengths": list(range(1, 40)) + [63, 64, 65, 100, 127, 128, 129, 255, 256, 257, 300, 999, 1000, 1001, 1500, 5000] + ([] if q else [4096, 10000, 50000])}])
     ctx.units("rows-unicode", unit_unirows,
               [{"n": 2250 if q else 20000, "seed": ctx.seed, "shard": i} for i in range(8 if q else 16)], procs=16)
     ctx.units("roundtrip", unit_roundtrip,
